@@ -26,6 +26,7 @@ def main():
                 "class Mode:\n"
                 "    MODE_NAME = 'm'\n"
                 "    DEFAULT = True\n"
+                + ("    def __len__(self):\n        return 0\n" if case.get("auto_falsy") else "") +
                 "    def on_enable(self):\n        builtins._verif_cb(['AutoEnable'])\n"
                 "    def on_iteration(self, tm):\n        builtins._verif_cb(['AutoIter'])\n"
                 "    def on_disable(self):\n        builtins._verif_cb(['AutoDisable'])\n")
